@@ -34,17 +34,19 @@ EnvValues == {"unset", "0", "1", "true", "TRUE", "yes"}
 EnvTruthy(v) == v \in {"1", "true", "TRUE"}
 PathClasses == {"inside", "outside", "symlink", "sibling"}     \* sibling: /base_evil next to /base
 Contained(pc) == pc = "inside"
-DirModes == {"none", "caller", "source", "resolver"}            \* where allowed base directories come from (source: the location of
+DirModes == {"none", "caller", "source", "resolver", "empty"}            \* where allowed base directories come from (source: the location of
                                                                 \* the pipeline file, given by the caller; resolver: the same, derived by
-                                                                \* the pipeline resolver from the file name it loads)
+                                                                \* the pipeline resolver from the file name it loads; empty: the caller
+                                                                \* gives a collection of allowed directories WITHOUT entries - none is)
 
 \* case == [kind, depth, inject (set of levels with truthy opt-in keys written into the document),
 \*          caller (BOOLEAN: the opt-in argument for this kind's capability), env, pathclass, dirs]
 \* (kind "ytag": the pipeline TEXT carries a YAML tag that constructs a Python object - calls a function - while the
 \*  text is parsed; no opt-in covers that, it is never granted and the text is not a loadable document)
 Granted(c) == c.kind # "ytag" /\ (c.caller \/ EnvTruthy(c.env))
+Allowed(c) == c.dirs # "empty" /\ Contained(c.pathclass)        \* is the vars file inside a base directory in force?
 MayRun(c) == /\ Granted(c)
-             /\ (CapOf(c.kind) = "vars" /\ c.dirs # "none") => Contained(c.pathclass)
+             /\ (CapOf(c.kind) = "vars" /\ c.dirs # "none") => Allowed(c)
 
 \* ---- the state machine -----------------------------------------------------------------
 SInit == [phase |-> "start", bit |-> FALSE, effect |-> FALSE, error |-> "none"]
@@ -56,6 +58,6 @@ SLoad(c, st) ==
 SUse(c, st) ==
     IF st.phase # "loaded" THEN st
     ELSE IF ~(st.bit \/ EnvTruthy(c.env)) THEN [st EXCEPT !.phase = "used", !.error = "security"]
-    ELSE IF CapOf(c.kind) = "vars" /\ c.dirs # "none" /\ ~Contained(c.pathclass) THEN [st EXCEPT !.phase = "used", !.error = "security"]
+    ELSE IF CapOf(c.kind) = "vars" /\ c.dirs # "none" /\ ~Allowed(c) THEN [st EXCEPT !.phase = "used", !.error = "security"]
     ELSE [st EXCEPT !.phase = "used", !.effect = TRUE]
 =============================================================================
